@@ -1,6 +1,6 @@
 """Generic driver for value-preservation monitors: run programs, judge (spec recipe vs result tree) with oracle E in parallel,
 confirm candidates in fresh processes (one batch), shrink only the first member of each key, report."""
-from vlib.core import Check, run_cases, run_one, check_process_reports, crash_key, render, NCPU
+from vlib.core import Check, run_cases, run_one, check_process_reports, crash_key, resource_crash, render, NCPU
 from vlib import gen, shrink
 from . import _value
 from .c07 import _shape
@@ -56,6 +56,9 @@ class VPCheck(Check):
                 self.inconclusive += 1
                 continue
             self.note_asserts(r)
+            if r.status == 'crashed' and resource_crash(r):
+                self.count('resource-limit (astronomically large integer)')
+                continue
             if r.status == 'crashed':
                 self.violation(dict(crash_key(r), label=it.get('label')), dict(program=[render(s) for s in it['stmts']], crash=r.crash, config=self.config))
                 continue
